@@ -71,7 +71,9 @@ func (f *Mapl) Call(s *slip.Scope, args slip.List, depth int) (result slip.Objec
 			l2 := args[i].(slip.List)
 			ca[i-1] = l2[n:]
 		}
-		_ = caller.Call(s, ca, d2)
+		if r := caller.Call(s, ca, d2); slip.IsExit(r) {
+			return r
+		}
 	}
 	return list
 }
